@@ -183,6 +183,7 @@ type tarExpect struct {
 	mustReject string            // non-empty: why an error is demanded
 	files      map[string][]byte // non-nil: the exact tree a successful extraction must produce
 	original   bool              // derived from the fixture's own archive: identical tree, or Load decides
+	load       expectation       // what that Load is held to (zero value: lenient)
 }
 
 // runTar drives UnpackTar (low-level building block: path safety, file types, error on
@@ -224,7 +225,7 @@ func runTar(fx *fixture, sb *sandbox, data []byte, dest string, exp tarExpect, v
 			return nil
 		}
 		// UnpackTar has no integrity data of its own; the directory is consumed by Load
-		res, skip, err := judgeLoad(fx, what+" extracted a different tree; Load of it", retriever.LoadOptions{InputDir: sb.out}, lenient, "")
+		res, skip, err := judgeLoad(fx, what+" extracted a different tree; Load of it", retriever.LoadOptions{InputDir: sb.out}, exp.load, "")
 		if err != nil {
 			return err
 		}
